@@ -77,6 +77,7 @@ Cfg_quiet1 == <<A_quiet(1024)>>
 Cfg_full1 == <<A_full(1024)>>
 Cfg_quiet2 == <<A_quiet(1024), A_quiet(1025)>>
 Cfg_ka2 == <<A_ka(1024), A_quiet(1025)>>
+Cfg_quiet3 == <<A_quiet(1024), A_quiet(1025), A_quiet(1026)>>
 DEVM_none == {}
 DEVM_d9 == {"NoConfirmForNonRead"}
 =============================================================================
